@@ -344,7 +344,7 @@ func selectPrefixes(name string, D []byte, rng *rand.Rand) []int {
 		add(i)
 		add(n - 1 - i)
 	}
-	stride := n / 150
+	stride := n / 300
 	if stride < 1 {
 		stride = 1
 	}
@@ -495,7 +495,7 @@ func runDamagePhase(dumps []*scenState, keys []keyedQ) {
 	_ = os.WriteFile(keysFile, kb, 0o644)
 	rep.Count("damage_harvested_keys", int64(len(keys)))
 
-	n := rep.Pick(640, 20000)
+	n := rep.Pick(1600, 20000)
 	workers := 16
 	parts := make([][]int, workers)
 	for i := 0; i < n; i++ {
